@@ -62,6 +62,7 @@ type c15Case struct {
 	Bypass       bool     `json:"bypass"`
 	IntraMarker  bool     `json:"intra_marker,omitempty"` // the caller also sets the intra-proxy marker headers
 	WithNS       bool     `json:"with_ns,omitempty"`      // the policy also lists allowed namespaces; requests name only allowed ones
+	Knobs        int      `json:"knobs,omitempty"`        // unrelated settings of the connection switched on (vfUnrelated bit mask)
 	Transport    string   `json:"transport"` // "tcp" | "mux-server" | "mux-client"
 }
 
@@ -80,6 +81,7 @@ func c15AdminMethods() []string {
 // the local side; returns the first deviation from the statement.
 func c15Run(c c15Case) (denied, allowed int, err error) {
 	edit := func(cfg *config.ClusterConnConfig) {
+		vfUnrelated(cfg, c.Knobs)
 		if c.Policy {
 			cfg.ACLPolicy = &config.ACLPolicy{AllowedMethods: config.AllowedMethods{AdminService: c.AllowedAdmin}}
 			if c.WithNS {
@@ -277,6 +279,9 @@ func TestVF_C15_Wiring(t *testing.T) {
 		c.Bypass = rapid.Bool().Draw(rt, "bypass")
 		c.IntraMarker = rapid.IntRange(0, 2).Draw(rt, "intra") == 0
 		c.WithNS = c.Policy && rapid.IntRange(0, 2).Draw(rt, "withNS") == 0
+		if rapid.Bool().Draw(rt, "knobs") {
+			c.Knobs = rapid.IntRange(1, 63).Draw(rt, "knobMask")
+		}
 		switch rapid.IntRange(0, 3).Draw(rt, "listKind") {
 		case 0:
 			c.AllowedAdmin = []string{rapid.SampledFrom(admin).Draw(rt, "single")}
